@@ -65,6 +65,48 @@ def is_pure_validator(fn, by_pat, depth=0):
     return _PV[key]
 
 
+_BL = {}
+
+
+def _bool_locals(fn):
+    """decl id -> initialiser for bool locals that are assigned once (at their declaration)"""
+    key = id(fn.get("body"))
+    if key in _BL and _BL[key][0] is fn.get("body"):
+        return _BL[key][1]
+    from astu import single_assignment_locals
+    decls = {}
+    walk(fn.get("body"), lambda n: [decls.__setitem__(v["d"], v) for v in n.get("vars", []) if "d" in v] if n.get("k") == "Decl" else None)
+    sal = single_assignment_locals(fn)
+    res = {d: e for d, e in sal.items() if (decls.get(d, {}).get("t") or "").replace("const ", "") == "bool"}
+    _BL[key] = (fn.get("body"), res)
+    return res
+
+
+def _inline_bools(e, bl, depth=0):
+    from vlib import normalize
+    if not bl or depth > 4:
+        return e
+    import copy
+    hit = [False]
+
+    def sub(n):
+        if isinstance(n, list):
+            return [sub(x) for x in n]
+        if not isinstance(n, dict):
+            return n
+        if n.get("k") == "Ref" and n.get("d") in bl:
+            hit[0] = True
+            return _inline_bools(copy.deepcopy(bl[n["d"]]), bl, depth + 1)
+        return {k: sub(v) for k, v in n.items()}
+    r = sub(e)
+    if not hit[0]:
+        return e
+    try:
+        return normalize.norm_expr(r)      # `!in_range` with in_range = a && b becomes !a || !b again
+    except Exception:
+        return r
+
+
 def inlined_guards(fn, by_pat, env=None, depth=0, outer_ctx=(), force=()):
     """(condition node, env, context) of every `if (cond) throw` guard of fn, including those of pure-validator helpers it calls with
     the helper's parameters bound to the caller's arguments; plus ("call", name) for calls of check_* functions that are not pure.
@@ -98,6 +140,8 @@ def inlined_guards(fn, by_pat, env=None, depth=0, outer_ctx=(), force=()):
             ctx = [(l, env) for l, o in reach_tagged(fn["body"], n) if o in ("if", "else")]
             # small `return expr;` helpers of the class / of this file read as their expression
             cnd = inline_single_returns(n["c"], by_pat, fn.get("rect"), file=str(fn.get("pat", "")).rsplit(":", 1)[0])
+            # a named condition (`const bool too_small = x < MIN; if (too_small || ..) throw`) reads as the condition itself
+            cnd = _inline_bools(cnd, _bool_locals(fn))
             # `if (a || b) throw` rejects exactly what `if (a) throw; if (b) throw;` rejects: one guard per disjunct
 
             def disj(x):
